@@ -1157,7 +1157,7 @@ dt_strfd(char *restrict buf, size_t bsz, const char *fmt, struct dt_d_s that)
 				 * would have written */
 				bp = eo;
 			}
-			if (spec.ord) {
+			if (spec.ord && bp >= buf + 2) {
 				bp += __ordtostr(bp, eo - bp);
 			} else if (spec.bizda && bp < eo) {
 				/* don't print the b after an ordinal */
